@@ -7,7 +7,9 @@ import (
 	"path/filepath"
 	"regexp"
 	"sort"
+	"strconv"
 	"strings"
+	"sync"
 	"time"
 
 	"go/types"
@@ -253,6 +255,16 @@ func runProperty(o checkOpts) ([]*funcResult, *Engine, []string, error) {
 			skip = ent.Unclaimed
 		}
 	}
+	// first pass: the functions are discharged concurrently, with one shared limit on the queries in flight (each
+	// query races up to three solver processes, the losers are killed at the first definite answer)
+	inFlight := 5 // x3 solver processes on 16 cores: more than this inflates the solver times of the slower obligations
+	if v := os.Getenv("D2VC_WORKERS"); v != "" {
+		if n, err := strconv.Atoi(v); err == nil && n > 0 {
+			inFlight = n
+		}
+	}
+	sem := make(chan struct{}, inFlight)
+	var fwg sync.WaitGroup
 	for _, r := range results {
 		var obs []*Obligation
 		for _, ob := range r.ctx.obligations {
@@ -265,8 +277,16 @@ func runProperty(o checkOpts) ([]*funcResult, *Engine, []string, error) {
 				obs = append(obs, ob)
 			}
 		}
-		discharge(r.ctx.log, r.ctx.litPrelude(), obs, dischargeOpts{dir: filepath.Join(dir, sanitize(r.ctx.fn)), timeoutS: o.timeoutS, agree: o.agree, workers: 5})
+		if len(obs) == 0 {
+			continue
+		}
+		fwg.Add(1)
+		go func(r *funcResult, obs []*Obligation) {
+			defer fwg.Done()
+			discharge(r.ctx.log, r.ctx.litPrelude(), obs, dischargeOpts{dir: filepath.Join(dir, sanitize(r.ctx.fn)), timeoutS: o.timeoutS, agree: o.agree, sem: sem})
+		}(r, obs)
 	}
+	fwg.Wait()
 	// Second pass against load-induced time-outs: a claimed (or helper) obligation that got no definite answer
 	// (unknown/timeout, never sat) is decided once more with three times the limits and only two queries in flight.
 	// A longer limit can only turn "undecided" into a definite answer, so this cannot hide a failure; it is capped
@@ -479,7 +499,7 @@ func devReport(results []*funcResult, problems []string, start time.Time) int {
 				fmt.Printf("        model: %s\n", strings.Join(strings.Fields(ob.Model), " "))
 			}
 			if !okk {
-				fmt.Printf("        file: %s\n", ob.SmtFile)
+				fmt.Printf("        file: %s  (%s)\n", ob.SmtFile, ob.Pos)
 			}
 		}
 		if len(r.ctx.abstractions) > 0 {
